@@ -601,7 +601,7 @@ func (w *world) checkViewTx(ob *vh.ObservedBlock, i int, p *plan) {
 	}
 	if !ob.PostIsEndBlock[i] {
 		if os.Getenv("C11_DEBUG") != "" && (p.View.Method == "rewardsOf" || p.View.Method == "balanceOf") {
-			fmt.Println("DEBUG view", p.View.Method, p.View.Route, rc.Status, p.twin.View.Value, len(vh.Diff(ob.Pre[i].Dump, ob.Post[i].Dump)))
+			fmt.Println("DEBUG view", p.View.Method, p.View.Route, rc.Status, p.twin.View.Value, p.View.Acct.Hex(), w.delegationsOf(p.View.Acct), len(vh.Diff(ob.Pre[i].Dump, ob.Post[i].Dump)))
 		}
 		for _, ch := range vh.Diff(ob.Pre[i].Dump, ob.Post[i].Dump) {
 			if ch.Store != "acc" && ch.Store != "bank" && ch.Store != "evm" {
